@@ -667,14 +667,16 @@ def indirectfam(rng):
     return "\n".join(out)
 
 
-def handlerfam(rng):
+def handlerfam(rng, style=None):
     """Program family with many small functions, each with its own source-to-sink flow: 40..70 handlers whose source
     node gets a different node id through 0..30 padding calls. Every flow has its own entry point, so anything keyed
     by (summary id, node id) - entry points, visited sets - is exercised with many distinct ids, and the summary ids
-    themselves depend on which worker builds which summary first."""
+    themselves depend on which worker builds which summary first. Sources are calls or reads of a source *field*
+    (an entry point that is not a call node). Returns (text, config)."""
     n = 40 + rng.below(31)
-    style = rng.pick(["call", "call", "field"])
-    out = ["package main", "", "type T struct {", "\tsrc string", "\tn   int", "}", "",
+    picked = rng.pick(["call", "fieldsrc", "fieldsrc", "field"])
+    style = style or picked
+    out = ["package main", "", "type T struct {", "\tSrc string", "\tn   int", "}", "",
            'func source1() string { return "s" }', "func sink1(x any)      {}", "func nop(i int)        {}", ""]
     for k in range(n):
         pad = rng.pick([0, 0, 1, 2, 3, 5, 8, 12, 20, 30]) if rng.chance(60) else rng.below(31)
@@ -683,10 +685,16 @@ def handlerfam(rng):
             out.append("\tnop(%d)" % i)
         if style == "call":
             out += ["\tx := source1()", "\tsink1(x)"]
+        elif style == "fieldsrc":
+            out += ["\tsink1(t.Src)"]
         else:
-            out += ["\tt.src = source1()", "\tsink1(t.src)"]
+            out += ["\tt.n++", "\tx := source1()", "\tsink1(x)"]
         out += ["}", ""]
-    out += ["func main() {", '\tt := &T{src: "x", n: 1}']
+    out += ["func main() {", '\tt := &T{Src: source1(), n: 1}']
     out += ["\thandler%d(t)" % k for k in range(n)]
     out += ["}", ""]
-    return "\n".join(out)
+    config = CONFIG
+    if style == "fieldsrc":
+        config = CONFIG.replace('        method: "^source[0-9]*$"\n',
+                                '        method: "^source_never$"\n      - package: "(main)|(command-line-arguments)"\n        field: "Src"\n', 1)
+    return "\n".join(out), config
